@@ -839,7 +839,6 @@ func main() {
 		"for snapshot variants configured to skip the body only the head of the snapshot is required to parse and match",
 		"trailers are always announced by a Trailer header (net/http drops unannounced trailers of an unlogged message)",
 	}
-	profStop()
 	rep.Finish()
 }
 
